@@ -283,8 +283,17 @@ func (tx *zzTx) Rollback(ctx context.Context) error {
 	return nil
 }
 
+// CopyFrom is reached when a real dig.Integration is the destination (C20's
+// schedule harness): rows are drained and counted, their content is C11's subject.
 func (tx *zzTx) CopyFrom(ctx context.Context, tableName pgx.Identifier, columnNames []string, rowSrc pgx.CopyFromSource) (int64, error) {
-	panic("CopyFrom: the destination stub records inserts through insertBlocks")
+	if tx.closed {
+		return 0, pgx.ErrTxClosed
+	}
+	n := int64(0)
+	for rowSrc.Next() {
+		n++
+	}
+	return n, nil
 }
 func (tx *zzTx) SendBatch(ctx context.Context, b *pgx.Batch) pgx.BatchResults { panic("unmodelled") }
 func (tx *zzTx) LargeObjects() pgx.LargeObjects                               { panic("unmodelled") }
